@@ -161,6 +161,9 @@ Definition step_op (st : rstate) (op : list tok) : rstate * list tok :=
     else if name =? "abort" then
       match args with [TN id] => do_step st (IAbort (Z.to_nat id)) | _ => bad end
     else if name =? "closeall" then do_step st ICloseAll
+    else if (name =? "setup") || (name =? "send") || (name =? "sleep") || (name =? "recluster") then
+      (* ops of the black-box tier (harness/src/bin/c19e.rs): nothing for the in-process model to do *)
+      (st, [])
     else if name =? "dump" then
       (st, flat_map flow_toks (sitems (m_flows (rm st))))
     else bad
